@@ -4,6 +4,7 @@ import (
 	"context"
 	"fmt"
 	"sync"
+	"sync/atomic"
 	"testing/synctest"
 
 	"github.com/avos-io/goat"
@@ -15,8 +16,19 @@ import (
 // (C20 has recording handlers of its own in x_observers.go).
 type nopStats struct{}
 
+var spinSink atomic.Int64
+
 func (nopStats) TagRPC(ctx context.Context, _ *stats.RPCTagInfo) context.Context   { return ctx }
-func (nopStats) HandleRPC(context.Context, stats.RPCStats)                         {}
+func (nopStats) HandleRPC(_ context.Context, s stats.RPCStats) {
+	if _, ok := s.(*stats.OutHeader); ok {
+		// an observer that takes a few microseconds over the headers (it spins: it must not block on anything the
+		// scheduler could mistake for quiescence, and the library may call it with a lock held)
+		// (counted, not timed: inside a synctest bubble the clock stands still while anything runs)
+		for i := 0; i < 30000; i++ {
+			spinSink.Add(1)
+		}
+	}
+}
 func (nopStats) TagConn(ctx context.Context, _ *stats.ConnTagInfo) context.Context { return ctx }
 func (nopStats) HandleConn(context.Context, stats.ConnStats)                       {}
 
